@@ -956,6 +956,7 @@ class TermCanvas(Canvas):
             char_spec = (self.attrspec, self.charset.current, char)
 
         x, y = position
+        chars = min(chars, self.width)  # more than a full row changes nothing further
 
         while chars > 0:
             self.term[y].insert(x, char_spec)
@@ -975,6 +976,7 @@ class TermCanvas(Canvas):
             chars = 1
 
         x, y = position
+        chars = min(chars, self.width)  # more than a full row changes nothing further
 
         while chars > 0:
             self.term[y].pop(x)
@@ -994,6 +996,7 @@ class TermCanvas(Canvas):
 
         if lines == 0:
             lines = 1
+        lines = min(lines, self.height)  # more than a full screen changes nothing further
 
         while lines > 0:
             self.term.insert(row, self.empty_line())
@@ -1013,6 +1016,7 @@ class TermCanvas(Canvas):
 
         if lines == 0:
             lines = 1
+        lines = min(lines, self.height)  # more than a full screen changes nothing further
 
         while lines > 0:
             self.term.pop(row)
